@@ -117,6 +117,8 @@ FIRST_LIMIT = 16
 
 
 _SOURCE_BUFFERS = {}
+_SOURCE_VIEWS = {}
+_COUNTER = [0]
 
 
 def solve(q, kw, **over):
@@ -126,9 +128,37 @@ def solve(q, kw, **over):
     # the caller's source array: one buffer per shape, refilled in place for every solve (a sweep over emission maps does
     # exactly that) - the solver must read its contents, not recognise the object
     q_in = np.asarray(q, dtype=float)
-    buf = _SOURCE_BUFFERS.setdefault(q_in.shape, np.empty(q_in.shape))
-    np.copyto(buf, q_in)
-    q = buf
+    form = (_COUNTER[0] + 1) % 6
+    if form in (1, 4) and q_in.ndim == 2:
+        # ... as a STRIDED view (every second column of a wider table), the same view object refilled in place
+        if q_in.shape not in _SOURCE_VIEWS:
+            _SOURCE_VIEWS[q_in.shape] = np.zeros((q_in.shape[0], 2 * q_in.shape[1]))[:, ::2]
+        buf = _SOURCE_VIEWS[q_in.shape]
+        np.copyto(buf, q_in)
+        q = buf
+    elif form == 2 and q_in.size and np.all(q_in == np.rint(q_in)) and float(np.abs(q_in).max()) < 2.0 ** 53:
+        q = q_in.astype(np.int64)          # ... a field of whole numbers as an INTEGER array (a 0/1 mask)
+    else:
+        buf = _SOURCE_BUFFERS.setdefault(q_in.shape, np.empty(q_in.shape))
+        np.copyto(buf, q_in)
+        q = buf
+    if form == 3:
+        # the profiles as columns of one (levels x variables) table: strided one-dimensional views
+        table = np.empty((len(k["z"]), len(k["profiles"])))
+        for i_, a_ in enumerate(k["profiles"]):
+            table[:, i_] = a_
+        k["profiles"] = tuple(table[:, i_] for i_ in range(table.shape[1]))
+    # argument forms: lengths that are whole numbers are handed over as Python ints on every other solve (domain=(100, 60),
+    # halo=20, meas_pt=(30, 10) is how a script writes them) - the same numbers, the same solve
+    _COUNTER[0] += 1
+    if _COUNTER[0] % 2 == 0:
+        def _whole(v):
+            return int(v) if isinstance(v, float) and v == int(v) and abs(v) < 2 ** 53 else v
+
+        k["domain"] = tuple(_whole(v) for v in k["domain"])
+        k["meas_pt"] = tuple(_whole(v) for v in k["meas_pt"])
+        if k.get("halo") is not None:
+            k["halo"] = _whole(k["halo"])
     # every identity compares several solves that share their argument arrays: a solve must leave them as they were
     watched = {"srf_flx": q, "z": k["z"], "levels": k["levels"]}
     watched.update({"profiles[%d]" % i: a for i, a in enumerate(k["profiles"])})
